@@ -757,7 +757,11 @@ class Evaluator:
             return Deg(vadd(db if db != ZERO else {}, da if da != ZERO else {}, -1))
         if name in self.ctx_returns:
             r = self.ctx_returns[name]
-            return r(c) if callable(r) else r
+            if callable(r):
+                import inspect
+
+                return r(c, self, env) if len(inspect.signature(r).parameters) >= 3 else r(c)
+            return r
         if name == "eigh" and args:
             return ("tuple", [Deg(degree_of(args[0])), Deg({})])  # eigenvalues carry the degree, eigenvectors are orthonormal
         if name == "qr" and args:
